@@ -116,9 +116,9 @@ nothing accepted-but-unflushed), or the task's waker is stored with the socket's
 (`poll_write` or `poll_flush` answered `Pending` during this very poll).  Response bytes are never
 left waiting for a wake-up that nobody will deliver. -/
 theorem C04_pending_registers_write (e : Env) (F : Nat) (d d' : D) (w w' : World)
-    (h : pollTop e F d w = (.pending, d', w')) (hw : w'.woken = false) :
+    (hnu : d.upgraded = false) (h : pollTop e F d w = (.pending, d', w')) (hw : w'.woken = false) :
     (d'.wlen = 0 ∧ w'.dirty = false) ∨ (w'.sem .w).waiting = true ∨ (w'.sem .f).waiting = true := by
-  obtain ⟨hp, hfuel⟩ := pollTop_pending h
+  obtain ⟨hp, hfuel⟩ := pollTop_pending hnu h
   rcases (poll_spec e F 2 d w d' w' hp hw).1 with h1 | h1 | h1 | h1
   · exact Or.inl h1
   · exact Or.inr (Or.inl h1)
@@ -133,12 +133,14 @@ until the request-body consumer or the pipeline queue makes room).
 With the `fix:` commit this holds for *all* states; before it, a paused payload that was dropped
 later in the same poll violated it (`witness_unfixed_tail_sleeps` below). -/
 theorem C04_pending_registers_read (e : Env) (F : Nat) (d d' : D) (w w' : World)
-    (hfix : e.cfg.fixed = true) (h : pollTop e F d w = (.pending, d', w'))
-    (hw : w'.woken = false) (hl : d'.flags.linger = false) (hs : d'.flags.shutdown = false) :
+    (hfix : e.cfg.fixed = true) (hnu : d.upgraded = false)
+    (h : pollTop e F d w = (.pending, d', w'))
+    (hw : w'.woken = false) (hl : d'.flags.linger = false) (hs : d'.flags.shutdown = false)
+    (hnu' : d'.upgraded = false) :
     d'.flags.readDisc = true ∨ (w'.sem .r).waiting = true ∨ w'.silentWaiting = true ∨
       d'.rb ≥ Consts.h1MaxBufferSize := by
-  obtain ⟨hp, hfuel⟩ := pollTop_pending h
-  rcases (poll_spec e F 2 d w d' w' hp hw).2 hfix hl hs with h1 | (h1 | h1 | h1) | h1
+  obtain ⟨hp, hfuel⟩ := pollTop_pending hnu h
+  rcases (poll_spec e F 2 d w d' w' hp hw).2 hfix hl hs hnu' with h1 | (h1 | h1 | h1) | h1
   · exact Or.inl h1
   · exact Or.inr (Or.inl h1)
   · exact Or.inr (Or.inr (Or.inl h1))
@@ -194,16 +196,64 @@ theorem witness_fixed_tail_wakes :
     r.1 = .pending ∧ r.2.2.woken = true := by
   decide
 
+/-! ### buffered requests behind a full pipeline queue are decoded once the queue drains -/
+
+/-- **C04_tail_resumes_decoding.** (fixed code) If `poll_request` was refused at the start of a
+poll because the pipeline queue was full (`pipelineWasFull`), the tail of `Dispatcher::poll` does
+not return `Pending` without a wake-up request while the queue has room again, input is still
+buffered and the read half is open: the buffered requests are decoded by the next poll instead
+of waiting for a socket event that a peer which has sent everything will never cause. -/
+theorem C04_tail_resumes_decoding (e : Env) (full : Bool) (d d' : D) (w w' : World)
+    (hfix : e.cfg.fixed = true) (h : normalTail e full true d w = .ret .pending d' w')
+    (hw : w'.woken = false) :
+    ¬(d'.messages.length < Consts.h1MaxPipelined ∧ d'.rb > 0 ∧ d'.flags.readDisc = false) := by
+  obtain ⟨_, _, _, _, hp⟩ := normalTail_ret _ _ _ _ _ _ _ _ h
+  have := ((hp rfl hw).2.2 hfix).2
+  intro hc
+  exact this ⟨rfl, hc⟩
+
+/-- 20 tiny requests; the first 17 arrived while handler 0 was Pending (1 in service + 16 queued),
+the last 3 (93 bytes) arrived when the queue was already full and sit undecoded in `read_buf`;
+all handlers are now Ready at first poll; the peer has sent everything and stays silent -/
+def queueReq : Req := { headLen := 31, body := .none, hsteps := [], resp := .zero, csteps := [] }
+
+def queueD : D :=
+  { flags := { started := true }
+    st := .service { rid := 0, steps := [], hasPl := false }
+    messages := (List.range 16).map fun i => .item (i + 1) false false
+    rb := 93, pendSegs := [.head 17 31 .none, .head 18 31 .none, .head 19 31 .none]
+    codecClose := false }
+
+def queueW : World := { rops := [.silent], chans := List.replicate 20 {} }
+
+def queueEnv (fixed : Bool) : Env := { cfg := { fixed := fixed }, reqs := List.replicate 20 queueReq }
+
+/-- **witness_unfixed_queue_sleeps.** Before the fix: all 17 started requests are answered in this
+one poll (no handler returns `Pending`, so the nested `poll_request` never runs), the poll returns
+`Pending` without a wake-up request, the queue is empty, 93 bytes = 3 complete requests are still
+buffered, the read half is open — and only the (silent) socket could wake the task. -/
+theorem witness_unfixed_queue_sleeps :
+    let r := pollTop (queueEnv false) 64 queueD queueW
+    r.1 = .pending ∧ r.2.2.woken = false ∧ r.2.2.calls = 16 ∧ r.2.1.messages.length = 0 ∧
+    r.2.1.rb = 93 ∧ r.2.1.flags.readDisc = false ∧ r.2.1.flags.shutdown = false := by
+  decide
+
+/-- with the fix the same poll asks to be polled again -/
+theorem witness_fixed_queue_wakes :
+    let r := pollTop (queueEnv true) 64 queueD queueW
+    r.1 = .pending ∧ r.2.2.woken = true ∧ r.2.1.rb = 93 := by
+  decide
+
 /-- **C04_pending_registers_linger.** A `Pending` poll that ends in linger mode (discarding the
 unread request body before closing) without a self-wake waits on a registered source: the flush
 (write side), or the socket's read side, or the read half is closed (then only the shutdown
 timer, which `ensure_linger_timer` has armed, is left). -/
 theorem C04_pending_registers_linger (e : Env) (F : Nat) (d d' : D) (w w' : World)
-    (h : pollTop e F d w = (.pending, d', w')) (hw : w'.woken = false)
-    (hl : d'.flags.linger = true) :
+    (hnu : d.upgraded = false) (h : pollTop e F d w = (.pending, d', w')) (hw : w'.woken = false)
+    (hl : d'.flags.linger = true) (hnu' : d'.upgraded = false) :
     (w'.sem .w).waiting = true ∨ (w'.sem .f).waiting = true ∨
     d'.flags.readDisc = true ∨ (w'.sem .r).waiting = true ∨ w'.silentWaiting = true := by
-  obtain ⟨hp, hfuel⟩ := pollTop_pending h
+  obtain ⟨hp, hfuel⟩ := pollTop_pending hnu h
   -- two polls deep at most; each level either is the linger branch or the normal tail (which
   -- wakes when LINGER is set)
   have key : ∀ (depth : Nat) (d : D) (w : World), poll e F depth d w = (.pending, d', w') →
@@ -264,11 +314,15 @@ theorem C04_pending_registers_linger (e : Env) (F : Nat) (d d' : D) (w w' : Worl
               obtain ⟨k, d3, w3⟩ := rf
               try simp only at h
               split at h
-              · simp at h
+              · -- `PollResponse::Upgrade` (or an error)
+                split at h
+                · have := (upgradeBranch_spec _ _ _ _ h).2
+                  rw [this] at hnu'; simp [enterUpgrade, D.produce] at hnu'
+                · simp at h
               · split at h
                 · next r d4 w4 hn =>
                   simp at h; obtain ⟨rfl, rfl, rfl⟩ := h
-                  obtain ⟨_, _, _, _, hp4⟩ := normalTail_ret _ _ _ _ _ _ _ hn
+                  obtain ⟨_, _, _, _, hp4⟩ := normalTail_ret _ _ _ _ _ _ _ _ hn
                   have := (hp4 rfl hw).1
                   rw [this] at hl; cases hl
                 · exact ih _ _ h
@@ -284,10 +338,10 @@ theorem C04_pending_registers_linger (e : Env) (F : Nat) (d d' : D) (w w' : Worl
 self-wake has stored the task's waker with the socket's write side: `poll_write`, `poll_flush`
 or `poll_shutdown` answered `Pending` during this poll. -/
 theorem C04_pending_registers_shutdown (e : Env) (F : Nat) (d d' : D) (w w' : World)
-    (h : pollTop e F d w = (.pending, d', w')) (hw : w'.woken = false)
-    (hs : d'.flags.shutdown = true) (hl : d'.flags.linger = false) :
+    (hnu : d.upgraded = false) (h : pollTop e F d w = (.pending, d', w')) (hw : w'.woken = false)
+    (hs : d'.flags.shutdown = true) (hl : d'.flags.linger = false) (hnu' : d'.upgraded = false) :
     (w'.sem .w).waiting = true ∨ (w'.sem .f).waiting = true ∨ (w'.sem .s).waiting = true := by
-  obtain ⟨hp, hfuel⟩ := pollTop_pending h
+  obtain ⟨hp, hfuel⟩ := pollTop_pending hnu h
   have key : ∀ (depth : Nat) (d : D) (w : World), poll e F depth d w = (.pending, d', w') →
       (w'.sem .w).waiting = true ∨ (w'.sem .f).waiting = true ∨ (w'.sem .s).waiting = true := by
     intro depth
@@ -341,16 +395,72 @@ theorem C04_pending_registers_shutdown (e : Env) (F : Nat) (d d' : D) (w w' : Wo
               obtain ⟨k, d3, w3⟩ := rf
               try simp only at h
               split at h
-              · simp at h
+              · -- `PollResponse::Upgrade` (or an error)
+                split at h
+                · have := (upgradeBranch_spec _ _ _ _ h).2
+                  rw [this] at hnu'; simp [enterUpgrade, D.produce] at hnu'
+                · simp at h
               · split at h
                 · next r d4 w4 hn =>
                   simp at h; obtain ⟨rfl, rfl, rfl⟩ := h
-                  obtain ⟨_, _, _, _, hp4⟩ := normalTail_ret _ _ _ _ _ _ _ hn
+                  obtain ⟨_, _, _, _, hp4⟩ := normalTail_ret _ _ _ _ _ _ _ _ hn
                   have := (hp4 rfl hw).2.1
                   rw [this] at hs; cases hs
                 · exact ih _ _ h
   exact key 2 d w hp
 
+
+/-! ## a stream error ends the connection only after everything buffered is written; an upgrade
+takes the unflushed bytes along -/
+
+/-- **C04_error_waits_for_flush.** The tail of `Dispatcher::poll` returns the stored stream error
+(400 / 431 path: malformed request, over-long head) only when `write_buf` is empty: the error
+response and every earlier pipelined response still buffered are written before the connection
+ends with the error. -/
+theorem C04_error_waits_for_flush (e : Env) (full qfull : Bool) (d d' : D) (w w' : World)
+    (k : ErrKind) (h : normalTail e full qfull d w = .ret (.err k) d' w') :
+    d'.wlen = 0 ∧ d.wlen = 0 := by
+  unfold normalTail at h
+  split at h
+  · simp at h
+  · have hw := (tailFlags_spec e d w).2.1
+    unfold tailDecide at h
+    split at h
+    · next hc =>
+      simp at h; obtain ⟨_, rfl, _⟩ := h
+      simp only [Bool.and_eq_true, decide_eq_true_eq] at hc
+      exact ⟨hc.1.2, hw ▸ hc.1.2⟩
+    · split at h
+      · simp at h
+      · split at h
+        · simp at h
+        · split at h <;> simp at h
+
+/-- **C04_upgrade_keeps_buffer.** `upgrade()` hands the unflushed response bytes to the upgraded
+transport (nothing produced is dropped when the socket changes hands), and while the upgraded
+connection is `Pending` its waker is stored with the socket's write side. -/
+theorem C04_upgrade_keeps_buffer (d : D) :
+    (enterUpgrade d).wlen = d.wlen + upgradeMarkerLen ∧
+    (enterUpgrade d).produced = d.produced + upgradeMarkerLen := by
+  simp [enterUpgrade, D.produce]
+
+theorem C04_upgrade_pending_registers_write (e : Env) (F : Nat) (d d' : D) (w w' : World)
+    (hu : d.upgraded = true) (h : pollTop e F d w = (.pending, d', w')) :
+    (d'.wlen = 0 ∧ w'.dirty = false) ∨ (w'.sem .w).waiting = true ∨ (w'.sem .f).waiting = true := by
+  unfold pollTop at h
+  simp only [hu, if_true] at h
+  generalize hub : upgradeBranch d w = p at h
+  obtain ⟨r, d1, w1⟩ := p
+  simp only at h
+  split at h
+  · simp at h
+  · next hf =>
+    simp at h; obtain ⟨rfl, rfl, rfl⟩ := h
+    rcases (upgradeBranch_spec d w d1 w1 hub).1 with h1 | h1 | h1 | h1
+    · exact Or.inl h1
+    · exact Or.inr (Or.inl h1)
+    · exact Or.inr (Or.inr h1)
+    · simp at hf; rw [hf] at h1; cases h1
 
 /-! ## the request-body channel wakes the task that polled it last -/
 
@@ -389,10 +499,10 @@ verdict `stalled` is impossible while produced bytes are not yet on the wire.  T
 `C04_flush_terminates` (each such wake-up consumes one of the socket's finitely many `Pending`
 answers) this is "all produced bytes get flushed". -/
 theorem C04_no_stall_with_unflushed_bytes (e : Env) (F : Nat) (d d' : D) (w w' : World)
-    (h : pollTop e F d w = (.pending, d', w')) (hw : w'.woken = false)
+    (hnu : d.upgraded = false) (h : pollTop e F d w = (.pending, d', w')) (hw : w'.woken = false)
     (hun : d'.wlen > 0 ∨ w'.dirty = true) (tr : List String) :
     (fireWaiters false Src.waitable w' tr false).2.2 = true := by
-  rcases C04_pending_registers_write e F d d' w w' h hw with ⟨h0, hd0⟩ | h1 | h1
+  rcases C04_pending_registers_write e F d d' w w' hnu h hw with ⟨h0, hd0⟩ | h1 | h1
   · rcases hun with hu | hu
     · omega
     · rw [hd0] at hu; cases hu
@@ -402,10 +512,11 @@ theorem C04_no_stall_with_unflushed_bytes (e : Env) (F : Nat) (d d' : D) (w w' :
 /-- **C04_no_stall_in_shutdown.** Likewise for a connection in its shutdown procedure: a
 `Pending`, not self-woken poll in shutdown mode leaves a waiter the executor can serve. -/
 theorem C04_no_stall_in_shutdown (e : Env) (F : Nat) (d d' : D) (w w' : World)
-    (h : pollTop e F d w = (.pending, d', w')) (hw : w'.woken = false)
-    (hs : d'.flags.shutdown = true) (hl : d'.flags.linger = false) (tr : List String) :
+    (hnu : d.upgraded = false) (h : pollTop e F d w = (.pending, d', w')) (hw : w'.woken = false)
+    (hs : d'.flags.shutdown = true) (hl : d'.flags.linger = false) (hnu' : d'.upgraded = false)
+    (tr : List String) :
     (fireWaiters false Src.waitable w' tr false).2.2 = true := by
-  rcases C04_pending_registers_shutdown e F d d' w w' h hw hs hl with h1 | h1 | h1
+  rcases C04_pending_registers_shutdown e F d d' w w' hnu h hw hs hl hnu' with h1 | h1 | h1
   · exact fireWaiters_any false _ _ _ _ .w (by simp [Src.waitable]) h1
   · exact fireWaiters_any false _ _ _ _ .f (by simp [Src.waitable]) h1
   · exact fireWaiters_any false _ _ _ _ .s (by simp [Src.waitable]) h1
